@@ -35,11 +35,10 @@ def rdBits : Nat → Bits → Nat → Nat × Bits
 def unpack (bs : List Byte) : Bits := bs.flatMap fun b => bitsOf b 8
 
 /-- bytes of a bit string, the last byte filled with zero bits (`BitBufferByteAlign (bits, true)`) -/
-def packAux : Nat → Bits → List Byte
-  | 0, _ => []
-  | fuel + 1, bs => if bs.isEmpty then [] else (rdBits 8 bs 0).1 :: packAux fuel (bs.drop 8)
-
-def pack (bs : Bits) : List Byte := packAux (bs.length / 8 + 1) bs
+def pack : Bits → List Byte
+  | a :: b :: c :: d :: e :: f :: g :: h :: rest => (rdBits 8 [a, b, c, d, e, f, g, h] 0).1 :: pack rest
+  | [] => []
+  | l => [(rdBits 8 l 0).1]
 
 /-- BitBuffer on the reading side -/
 structure Rd where
